@@ -971,6 +971,8 @@ func (rs *runState) exec(task, step int, op core.Op) {
 		if x.running {
 			rs.leaserace(step, op)
 		}
+	case "resync":
+		rs.resync(step, op)
 	case "bdayblock":
 		rs.bdayblock(step, op)
 	case "importkeyb":
